@@ -1,11 +1,16 @@
 #!/bin/bash
-# apply every kept seeded change to /repo, run its property's quick check, undo; results -> seeded/detection.json
+# apply every kept seeded change (or only the ids given as arguments) to /repo, run its property's quick check, undo;
+# results -> seeded/detection.json (merged into the existing records when ids are given)
 cd /verif
+export SWEEP_IDS="$*"
 python3 - <<'PY'
 import glob, json, os, subprocess
-det = {}
+only = os.environ.get("SWEEP_IDS", "").split()
+det = json.load(open('/verif/seeded/detection.json')) if only and os.path.exists('/verif/seeded/detection.json') else {}
 for d in sorted(glob.glob('/verif/seeded/C*-*')):
     sid = os.path.basename(d)
+    if only and sid not in only:
+        continue
     prop = sid.split('-')[0]
     r = subprocess.run(['git', '-C', '/repo', 'apply', f'{d}/patch.diff'], capture_output=True, text=True)
     if r.returncode != 0:
